@@ -317,6 +317,19 @@ func execC36(t *testing.T, c *sim.Case) *sim.Result {
 			if w.DB == nil {
 				return
 			}
+			// Two installed tables with one file id (a retained WAL segment replayed and
+			// flushed again, known finding): from here on either table's file can be
+			// truncated or unlinked under the other's mapping and the process dies with
+			// SIGBUS at an arbitrary later read. Report it where it arises and end the run.
+			seen := map[uint64]bool{}
+			for _, tb := range w.DB.VerifLSM().VerifTables() {
+				if seen[tb.FileID] {
+					res.Violate(i, "duplicate_table_id", map[string]string{"after": op.K}, "after %s two installed tables carry file id %d: %s", op.String(), tb.FileID, DescribeTables(w))
+					w.Sched.Passthrough()
+					return
+				}
+				seen[tb.FileID] = true
+			}
 		}
 		res.Nontrivial = res.Faults["crash_image"] > 0 && res.Faults["raft_append"] > 0 && len(batches) > 0
 		_ = w.Close()
